@@ -198,7 +198,7 @@ class BaseGradientApproximator(metaclass=ABCGoogleDocstringInheritanceMeta):
             # keep the steps of the components used for the differentiation.
             step = asarray(step)[list(x_indices)]
 
-        return self._generate_perturbations(x_vect, x_indices, step)
+        return self._generate_perturbations(x_vect, list(x_indices), step)
 
     @abstractmethod
     def _generate_perturbations(
